@@ -9,7 +9,7 @@ PROP = {
     "rule": "cases = generated scripts of 4-24 messages over 1-4 documents (on disk / not): didOpen/didChange/didClose/reopen respecting the protocol, interleaved with requests, pumps and virtual-time advances, a quarter of them without any pause; each script runs under 3 schedule seeds; "
             "at quiescence (120 virtual seconds without server output) every document is compared with the model (analysis text, open flag, documentSymbol view); distinct = hash of the recorded lock-event interleaving; non-trivial = >= 3 document notifications",
     "min_nontrivial": {"quick": 1500, "thorough": 50000},
-    "max_secs": {"quick": 600, "thorough": 1200},
+    "max_secs": {"quick": 600, "thorough": 1500},
     "require_clauses": ["final-state-checked", "lock-events-observed"],
     "assumptions": COMMON_ASSUME + ["messages are delivered through on_notification_handler/on_request_handler exactly as ServerMessageProcessor::handle_message does; tasks run on a current-thread runtime, so the interleavings are those reachable by cooperative scheduling at await points (lock acquisitions yield a seeded number of times)"],
     "level_text": "Real dispatch + real handlers + real analysis; the only simulated parts are the transport and the clock. ~7k (quick) script executions, each checked against the reference model at quiescence.",
